@@ -1,24 +1,396 @@
-/* ext3.c -- iv_fd_pump (C17) and iv_inotify (C20) */
+/* ext3.c -- timer populations (C05), iv_fd_pump (C17), iv_inotify (C20) */
 #define _GNU_SOURCE
+#include <errno.h>
+#include <inttypes.h>
 #include <stdlib.h>
 #include <string.h>
+#include <sys/syscall.h>
+#include <unistd.h>
+
+#include <iv.h>
+
 #include "engine.h"
 #include "ext.h"
 
-int ext3_live(int id) { (void)id; return 0; }
-int ext3_reg(struct rthr *th, int id, const struct pop *op) { (void)th; (void)id; (void)op; return 0; }
-int ext3_unreg(struct rthr *th, int id, int keep) { (void)th; (void)id; (void)keep; return 0; }
-int ext3_op(struct rthr *th, const struct pop *op) { (void)th; (void)op; return 0; }
-void ext3_cb(struct rthr *th, int id, int kind, int band, int64_t x1, int64_t x2) { (void)th; (void)id; (void)kind; (void)band; (void)x1; (void)x2; }
-void ext3_cb_exit(struct rthr *th, int id, int kind) { (void)th; (void)id; (void)kind; }
-int ext3_foreign_thread_ok(int id, int kind) { (void)id; (void)kind; return 0; }
-int ext3_nesting_ok(int kind, int outer_kind) { (void)kind; (void)outer_kind; return 0; }
-int ext3_stale_ok(int id, int kind, int band) { (void)id; (void)kind; (void)band; return 0; }
-void ext3_wait_block(struct rthr *th) { (void)th; }
+/* =====================================================================================
+ * C05: timer populations far beyond the object table (bulk timers)
+ * ===================================================================================== */
+#define BT_MAX 40000
+struct btimer {
+	struct iv_timer	*t;		/* individually allocated; freed when fired / unregistered */
+	int64_t		expiry;
+	uint64_t	reg_seq;
+	int		state;		/* 0 free, 1 armed */
+	int		owner;
+	int		armed_idx;	/* position in the armed[] index */
+};
+static struct btimer *BT;
+static int *bt_armed, bt_narmed, bt_nslots;
+static uint64_t bt_rng;
+static long bt_registered, bt_fired, bt_unregistered, bt_peak;
+/* the current dispatch round (maximal run of consecutive timer callbacks of one thread) */
+static uint64_t bt_round_seq;
+static int64_t bt_round_max_fired;
+static int bt_round_open, bt_round_thread;
+static long bt_round_nwaits;
+
+static uint64_t bt_rnd(void) { return sm64(&bt_rng); }
+
+static void bt_round_close(void)
+{
+	int i;
+	if (!bt_round_open)
+		return;
+	bt_round_open = 0;
+	/* nobody that was registered before the round began, and is still waiting, may have an expiry
+	 * strictly earlier than a timer that ran in this round */
+	for (i = 0; i < bt_narmed; i++) {
+		struct btimer *b = &BT[bt_armed[i]];
+		if (b->owner == bt_round_thread && b->reg_seq < bt_round_seq && b->expiry < bt_round_max_fired) {
+			viol("C05.order", "bulk timer %d (expiry %" PRId64 ", registered before the dispatch round began) is still waiting although a timer with the later expiry %" PRId64 " ran in that round",
+			     bt_armed[i], b->expiry, bt_round_max_fired);
+			break;
+		}
+	}
+}
+
+static void bt_index_add(int slot)
+{
+	BT[slot].armed_idx = bt_narmed;
+	bt_armed[bt_narmed++] = slot;
+	if (bt_narmed > bt_peak)
+		bt_peak = bt_narmed;
+}
+static void bt_index_del(int slot)
+{
+	int i = BT[slot].armed_idx, last = bt_armed[bt_narmed - 1];
+	bt_armed[i] = last;
+	BT[last].armed_idx = i;
+	bt_narmed--;
+}
+
+static void h_btimer(void *cookie)
+{
+	struct btimer *b = cookie;
+	struct rthr *th = cur_thr();
+	int slot = (int)(b - BT);
+
+	SEQ++;
+	bt_fired++;
+	PROBE[PR_TIMER_FIRED]++;
+	if (th == NULL || (int)(th - RT) != b->owner)
+		viol("C04.thread", "bulk timer %d: handler ran in the wrong thread", slot);
+	else {
+		th->spin = 0;
+		th->cbs++;
+		if (!th->in_main)
+			viol("C07.outside", "bulk timer %d: callback outside iv_main", slot);
+		if (b->state != 1) {
+			viol("C04.count", "bulk timer %d: handler invoked although it is not armed (fired twice, or after unregister)", slot);
+			viol("C05.independence", "bulk timer %d: handler invoked although it is not armed", slot);
+		} else {
+			if (!th->have_clock || th->last_clock < b->expiry) {
+				viol("C04.early", "bulk timer %d: handler invoked with the loop clock at %" PRId64 " before its expiry %" PRId64, slot, th->last_clock, b->expiry);
+				viol("C05.independence", "bulk timer %d fired early", slot);
+			}
+			/* dispatch rounds are shared with the object timers (engine.c): a round starts with the
+			 * first timer callback after a callback of another kind or after a kernel poll */
+			if (th->last_kind != K_TIMER || th->last_cb_wait != th->nwaits) {
+				th->timer_round_seq = SEQ;
+				th->timer_round_len = 0;
+			}
+			th->timer_round_len++;
+			if (!bt_round_open || bt_round_thread != b->owner || bt_round_seq != th->timer_round_seq) {
+				bt_round_close();
+				bt_round_open = 1;
+				bt_round_thread = b->owner;
+				bt_round_seq = th->timer_round_seq;
+				bt_round_max_fired = INT64_MIN;
+				bt_round_nwaits = th->nwaits;
+			}
+			if (b->reg_seq < bt_round_seq) {
+				if (b->expiry < bt_round_max_fired)
+					viol("C05.order", "bulk timer %d (expiry %" PRId64 ") ran after a timer with the later expiry %" PRId64 " in the same dispatch round", slot, b->expiry, bt_round_max_fired);
+				else
+					bt_round_max_fired = b->expiry;
+			}
+			if (iv_timer_registered(b->t))
+				viol("C01.oneshot", "bulk timer %d still reported registered inside its handler", slot);
+			b->state = 0;
+			bt_index_del(slot);
+			note_freed(b->t, sizeof(*b->t));
+			free(b->t);
+			b->t = NULL;
+		}
+		th->last_kind = K_TIMER;
+		th->last_cb_wait = th->nwaits;
+	}
+	if (have_viol())
+		finish(1);
+}
+
+static int bt_free_slot(void)
+{
+	int i;
+	if (bt_nslots < BT_MAX)
+		return bt_nslots++;
+	for (i = 0; i < BT_MAX; i++)
+		if (BT[i].state == 0)
+			return i;
+	return -1;
+}
+
+static void bt_register(struct rthr *th, int64_t expiry)
+{
+	int slot = bt_free_slot();
+	struct btimer *b;
+	if (slot < 0)
+		return;
+	b = &BT[slot];
+	b->t = malloc(sizeof(*b->t));
+	memset(b->t, 0xA5, sizeof(*b->t));
+	IV_TIMER_INIT(b->t);
+	b->t->expires.tv_sec = expiry / 1000000000LL;
+	b->t->expires.tv_nsec = expiry % 1000000000LL;
+	b->t->cookie = b;
+	b->t->handler = h_btimer;
+	b->expiry = expiry;
+	b->reg_seq = ++SEQ;
+	b->owner = (int)(th - RT);
+	b->state = 1;
+	bt_index_add(slot);
+	iv_timer_register(b->t);
+	bt_registered++;
+}
+
+static void bt_unregister(int slot)
+{
+	struct btimer *b = &BT[slot];
+	iv_timer_unregister(b->t);
+	b->state = 0;
+	bt_index_del(slot);
+	note_freed(b->t, sizeof(*b->t));
+	free(b->t);
+	b->t = NULL;
+	bt_unregistered++;
+	SEQ++;
+}
+
+/* OP_BULK: d = kind, a = count, b = span / mode, c = seed
+ *   kind 0: register a timers with expiries in [now, now + b], quantised so that many keys are equal
+ *   kind 1: unregister a victims; mode b: 0 random, 1 newest, 2 oldest, 3 smallest expiry, 4 largest expiry
+ *   kind 2: register a timers that are already due (past / zero / now) */
+static int bulk_op(struct rthr *th, const struct pop *op)
+{
+	long i, n = (long)op->a;
+	int64_t now;
+	int t;
+
+	if (th == NULL || !th->inited)
+		return 0;
+	t = (int)(th - RT);
+	if (BT == NULL) {
+		BT = calloc(BT_MAX, sizeof(*BT));
+		bt_armed = calloc(BT_MAX, sizeof(*bt_armed));
+	}
+	bt_rng ^= (uint64_t)op->c * 0x9e3779b97f4a7c15ULL;
+	iv_validate_now();
+	now = (int64_t)iv_now.tv_sec * 1000000000LL + iv_now.tv_nsec;
+	simk_log(101, OP_BULK, op->d * 1000000 + n);
+	switch ((int)op->d) {
+	case 0: {
+		int64_t span = op->b > 0 ? op->b : 1, q = span / 16 > 0 ? span / 16 : 1;
+		for (i = 0; i < n && bt_narmed < BT_MAX - 1; i++) {
+			int64_t e = now + (int64_t)(bt_rnd() % (uint64_t)span);
+			if (bt_rnd() % 3 == 0)
+				e = now + ((e - now) / q) * q;
+			bt_register(th, e);
+		}
+		break;
+	}
+	case 1:
+		for (i = 0; i < n && bt_narmed > 0; i++) {
+			int k, pick = -1, mode = (int)op->b;
+			if (mode == 0) {
+				pick = bt_armed[bt_rnd() % (uint64_t)bt_narmed];
+			} else {
+				for (k = 0; k < bt_narmed; k++) {
+					struct btimer *b = &BT[bt_armed[k]], *p = pick >= 0 ? &BT[pick] : NULL;
+					if (p == NULL ||
+					    (mode == 1 && b->reg_seq > p->reg_seq) || (mode == 2 && b->reg_seq < p->reg_seq) ||
+					    (mode == 3 && b->expiry < p->expiry) || (mode == 4 && b->expiry > p->expiry))
+						pick = bt_armed[k];
+				}
+			}
+			if (pick < 0 || BT[pick].owner != t)
+				break;
+			if (th->have_clock && BT[pick].expiry <= th->last_clock && th->depth == 0 && th->last_kind == K_TIMER)
+				PROBE[PR_UNREG_EXPIRED_TIMER]++;
+			bt_unregister(pick);
+		}
+		break;
+	case 2:
+		for (i = 0; i < n && bt_narmed < BT_MAX - 1; i++) {
+			uint64_t r = bt_rnd() % 4;
+			bt_register(th, r == 0 ? 0 : r == 1 ? 1 : r == 2 ? now : now - (int64_t)(bt_rnd() % 1000000000ULL));
+		}
+		break;
+	}
+	if (bt_narmed >= 128)
+		PROBE[PR_TIMER_MANY]++;
+	if (bt_peak > 16384)
+		PROBE[PR_RADIX_CROSS]++;
+	return 1;
+}
+
+static void bulk_wait_block(struct rthr *th)
+{
+	int i, t = (int)(th - RT);
+	bt_round_close();
+	if (!th->have_clock)
+		return;
+	for (i = 0; i < bt_narmed; i++) {
+		struct btimer *b = &BT[bt_armed[i]];
+		if (b->owner == t && b->expiry <= th->last_clock) {
+			viol("C07.block_with_due", "thread %d blocks in the kernel although bulk timer %d (expiry %" PRId64 ") is due by the loop's own clock %" PRId64, t, bt_armed[i], b->expiry, th->last_clock);
+			viol("C05.independence", "bulk timer %d is due but the loop blocks", bt_armed[i]);
+			return;
+		}
+	}
+}
+
+static void bulk_time_advance(int64_t to)
+{
+	int t, i;
+	for (t = 0; t < PL->nthr; t++) {
+		struct rthr *th = &RT[t];
+		int64_t t0, s, minexp = INT64_MAX;
+		int which = -1;
+		if (PL->thr[t].kind != 'L' || !th->in_main || !simk_thread_blocked_in_wait(th->sim))
+			continue;
+		for (i = 0; i < bt_narmed; i++)
+			if (BT[bt_armed[i]].owner == t && BT[bt_armed[i]].expiry < minexp) {
+				minexp = BT[bt_armed[i]].expiry;
+				which = bt_armed[i];
+			}
+		if (which < 0)
+			continue;
+		t0 = simk_thread_wait_t0(th->sim);
+		s = th->have_clock ? t0 - th->clock_at_wait : 0;
+		if (s < 0)
+			s = 0;
+		if (to > (minexp > t0 ? minexp : t0) + s + 1000000 - 1) {
+			viol("C04.oversleep", "thread %d stays blocked until at least %" PRId64 " although bulk timer %d expires at %" PRId64 " (wait entered at %" PRId64 ")", t, to, which, minexp, t0);
+			viol("C05.independence", "bulk timer %d: the loop oversleeps its expiry", which);
+			return;
+		}
+	}
+}
+
+static void bulk_teardown(struct rthr *th)
+{
+	int t = (int)(th - RT), i;
+	bt_round_close();
+	for (i = bt_narmed - 1; i >= 0; i--)
+		if (i < bt_narmed && BT[bt_armed[i]].owner == t)
+			bt_unregister(bt_armed[i]);
+}
+
+static int bulk_live(struct rthr *th)
+{
+	int t = (int)(th - RT), i, n = 0;
+	for (i = 0; i < bt_narmed; i++)
+		if (BT[bt_armed[i]].owner == t)
+			n++;
+	return n;
+}
+
+/* =====================================================================================
+ * dispatch (pump and inotify are added in ext4.c)
+ * ===================================================================================== */
+int ext3_live(int id) { return ext4_live(id); }
+int ext3_reg(struct rthr *th, int id, const struct pop *op) { return ext4_reg(th, id, op); }
+int ext3_unreg(struct rthr *th, int id, int keep) { return ext4_unreg(th, id, keep); }
+
+int ext3_op(struct rthr *th, const struct pop *op)
+{
+	if (op->op == OP_BULK) {
+		int r = bulk_op(th, op);
+		if (th != NULL)
+			th->ext_live = bulk_live(th);
+		return r;
+	}
+	return ext4_op(th, op);
+}
+
+void ext3_cb(struct rthr *th, int id, int kind, int band, int64_t x1, int64_t x2) { ext4_cb(th, id, kind, band, x1, x2); }
+void ext3_cb_exit(struct rthr *th, int id, int kind)
+{
+	if (BT != NULL && th != NULL)
+		th->ext_live = bulk_live(th);
+	ext4_cb_exit(th, id, kind);
+}
+int ext3_foreign_thread_ok(int id, int kind) { return ext4_foreign_thread_ok(id, kind); }
+int ext3_nesting_ok(int kind, int outer_kind) { return ext4_nesting_ok(kind, outer_kind); }
+int ext3_stale_ok(int id, int kind, int band) { return ext4_stale_ok(id, kind, band); }
+
+void ext3_wait_block(struct rthr *th)
+{
+	if (BT != NULL) {
+		th->ext_live = bulk_live(th);
+		bulk_wait_block(th);
+	}
+	ext4_wait_block(th);
+}
+void ext3_wait_enter(struct rthr *th)
+{
+	if (BT != NULL)
+		th->ext_live = bulk_live(th);
+}
+void ext3_time_advance(int64_t to)
+{
+	if (BT != NULL)
+		bulk_time_advance(to);
+}
 const char *ext3_uaf_prop(void) { return "C01.uaf"; }
-void ext3_teardown(struct rthr *th) { (void)th; }
-void ext3_post_main(struct rthr *th) { (void)th; }
-void ext3_install_obs(void) { }
-void ext3_run_begin(void) { }
-void ext3_obligations(void) { }
-void ext3_end_of_run(int all_exited) { (void)all_exited; }
+
+void ext3_teardown(struct rthr *th)
+{
+	if (BT != NULL) {
+		bulk_teardown(th);
+		th->ext_live = 0;
+	}
+	ext4_teardown(th);
+}
+
+void ext3_post_main(struct rthr *th)
+{
+	if (BT != NULL) {
+		bulk_teardown(th);
+		th->ext_live = 0;
+	}
+	ext4_post_main(th);
+}
+void ext3_install_obs(void) { ext4_install_obs(); }
+void ext3_run_begin(void)
+{
+	bt_rng = PL->seed ^ 0xb01dface;
+	ext4_run_begin();
+}
+
+void ext3_obligations(void)
+{
+	int i;
+	bt_round_close();
+	for (i = 0; i < bt_narmed; i++) {
+		struct btimer *b = &BT[bt_armed[i]];
+		if (RT[b->owner].in_main) {
+			viol("C04.oversleep", "quiescence: bulk timer %d (expiry %" PRId64 ", now %" PRId64 ") is armed but its thread sleeps without any deadline", bt_armed[i], b->expiry, simk_now());
+			viol("C05.independence", "quiescence: bulk timer %d never fired", bt_armed[i]);
+			break;
+		}
+	}
+	ext4_obligations();
+}
+
+void ext3_end_of_run(int all_exited) { ext4_end_of_run(all_exited); }
